@@ -66,7 +66,8 @@ def cases(prop, shard, nshards, seed, tier, want_models=False):
     # uridines presented as thymidines (the T rows of the donor / acceptor / edge / Saenger tables with RNA geometry,
     # G.T wobbles in both orientations), and nucleotides reduced to their base
     for fn in ("tests/4qln.cif", "tests/1ehz-assembly-1.cif", "tests/1E7K_1_C.cif", "tests/1A1T_1_B.cif"):
-        for hops in ([{"op": "u-to-t"}], [{"op": "u-to-t"}, {"op": "reverse-res"}], [{"op": "base-only", "seed": "bo1", "frac": 0.3}], [{"op": "base-only", "seed": "bo2", "frac": 1.0}]):
+        for hops in ([{"op": "u-to-t"}], [{"op": "u-to-t"}, {"op": "reverse-res"}], [{"op": "base-only", "seed": "bo1", "frac": 0.3}], [{"op": "base-only", "seed": "bo2", "frac": 1.0}],
+                     [{"op": "plane-atoms-only", "seed": "pa1", "frac": 0.4}]):
             if tier == "quick" and fn.endswith(("1E7K_1_C.cif", "1A1T_1_B.cif")) and hops[0]["op"] == "base-only" and hops[0]["frac"] == 1.0:
                 continue
             if mine():
